@@ -361,8 +361,12 @@ class Client(base_client.BaseClient):
                     'WebSocket upgrade failed: unexpected recv exception: %s',
                     str(e))
                 return False
-            pkt = packet.Packet(encoded_packet=p)
-            if pkt.packet_type != packet.PONG or pkt.data != 'probe':
+            try:
+                pkt = packet.Packet(encoded_packet=p)
+            except Exception:
+                pkt = None
+            if pkt is None or pkt.packet_type != packet.PONG or \
+                    pkt.data != 'probe':
                 self.logger.warning(
                     'WebSocket upgrade failed: no PONG packet')
                 return False
@@ -382,15 +386,28 @@ class Client(base_client.BaseClient):
             except Exception as e:  # pragma: no cover
                 raise exceptions.ConnectionError(
                     'Unexpected recv exception: ' + str(e))
-            open_packet = packet.Packet(encoded_packet=p)
-            if open_packet.packet_type != packet.OPEN:
+            try:
+                open_packet = packet.Packet(encoded_packet=p)
+            except Exception:
+                open_packet = None
+            if open_packet is None or \
+                    open_packet.packet_type != packet.OPEN:
                 raise exceptions.ConnectionError('no OPEN packet')
             self.logger.info(
                 'WebSocket connection accepted with ' + str(open_packet.data))
-            self.sid = open_packet.data['sid']
-            self.upgrades = open_packet.data['upgrades']
-            self.ping_interval = int(open_packet.data['pingInterval']) / 1000.0
-            self.ping_timeout = int(open_packet.data['pingTimeout']) / 1000.0
+            try:
+                sid = open_packet.data['sid']
+                upgrades = open_packet.data['upgrades']
+                ping_interval = \
+                    int(open_packet.data['pingInterval']) / 1000.0
+                ping_timeout = int(open_packet.data['pingTimeout']) / 1000.0
+            except (TypeError, KeyError, ValueError):
+                raise exceptions.ConnectionError(
+                    'Unexpected OPEN packet from server') from None
+            self.sid = sid
+            self.upgrades = upgrades
+            self.ping_interval = ping_interval
+            self.ping_timeout = ping_timeout
             self.current_transport = 'websocket'
 
             self.state = 'connected'
